@@ -88,6 +88,9 @@ func (w *World) onWire(kind string, v any, enc []byte) {
 		db, err := decodeBlock(enc)
 		if err != nil {
 			w.violate("C11", "block-roundtrip-decode", fmt.Sprintf("decode(encode(block %s)) failed: %v", short(b.ID()), err))
+			if b.V2 != nil && len(b.V2.Transactions) > 0 {
+				w.violate("C18", "multiproof-roundtrip-decode", fmt.Sprintf("block %s in compressed (multiproof) form cannot be decoded again: %v", short(b.ID()), err))
+			}
 			return
 		}
 		if !bytes.Equal(encodeBlock(db), enc) {
